@@ -188,6 +188,24 @@ def run_graph_ops(recipe, ops, after=None):
                 steps.append({"err": None, "g": canon_node(g)})
             except Exception as e:  # noqa
                 steps.append({"err": err_name(e), "g": canon_node(g)})
+        elif op in ("to_dict_refused", "write_refused"):
+            # an observer that is refused (a value in the graph's own metadata cannot be copied / stored); the
+            # offending entry is removed again afterwards.  Harness-only op (never sent to the model).
+            import io
+            import threading
+            import nir
+            had = "lock" in g.metadata
+            g.metadata["lock"] = threading.Lock() if op == "to_dict_refused" else object()
+            try:
+                with warnings.catch_warnings():
+                    warnings.simplefilter("ignore")
+                    g.to_dict() if op == "to_dict_refused" else nir.write(io.BytesIO(), g)
+                steps.append({"err": None})
+            except Exception as e:  # noqa
+                steps.append({"err": err_name(e)})
+            finally:
+                if not had:
+                    g.metadata.pop("lock", None)
         else:
             raise ValueError(op)
         if after is not None:
